@@ -16,6 +16,8 @@ pub enum Kind {
     Cs,
     Pipe,
     Async,
+    /// a pipeline of three commands (the parent shifts pipes between elements)
+    Pipe3,
 }
 
 #[derive(Clone, Debug, Serialize, Deserialize, PartialEq)]
@@ -90,13 +92,13 @@ fn mutator(rng: &mut Rng, n: &mut u32) -> String {
 fn gen_test(rng: &mut Rng, n: &mut u32, id: &mut u32, depth: u32) -> Test {
     *id += 1;
     let my = *id;
-    let kind = *rng.pick(&[Kind::Paren, Kind::Paren, Kind::Cs, Kind::Pipe, Kind::Async, Kind::Async]);
+    let kind = *rng.pick(&[Kind::Paren, Kind::Paren, Kind::Cs, Kind::Pipe, Kind::Async, Kind::Async, Kind::Pipe3]);
     let muts = |rng: &mut Rng, n: &mut u32, max: u32| -> Vec<String> {
         (0..rng.below(max + 1)).map(|_| mutator(rng, n)).collect()
     };
     let pre = muts(rng, n, 4);
     let child = muts(rng, n, 5);
-    let mut child2 = if kind == Kind::Pipe { muts(rng, n, 4) } else { Vec::new() };
+    let mut child2 = if matches!(kind, Kind::Pipe | Kind::Pipe3) { muts(rng, n, 4) } else { Vec::new() };
     // the second element's stdin is the pipe the positive control reads
     child2.retain(|m| m != "exec </work/e1" && m != "exec <&-");
     let nested = if depth < 2 && rng.below(3) == 0 {
@@ -180,6 +182,12 @@ fn render_test(t: &Test, out: &mut String) {
             join(&t.child),
             inner
         )),
+        Kind::Pipe3 => out.push_str(&format!(
+            "{{ snap E{k}; {}{}echo data{k}; snap X{k}; }} | {{ snap F{k}; {}cat; snap Y{k}; }} | {{ snap G{k}; cat >{ctl_file}; snap Z{k}; }}\nsnap C{k}\ncat {ctl_file}\n",
+            join(&t.child),
+            inner,
+            join(&t.child2)
+        )),
     }
 }
 
@@ -198,7 +206,7 @@ fn expected_stdout_test(t: &Test, out: &mut String) {
     // output is not compared (see `expected_stdout`).
     let k = t.id;
     match t.kind {
-        Kind::Paren | Kind::Pipe => out.push_str(&format!("data{k}\n")),
+        Kind::Paren | Kind::Pipe | Kind::Pipe3 => out.push_str(&format!("data{k}\n")),
         Kind::Cs => out.push_str(&format!("data{k}\nout{k}\n")),
         Kind::Async => out.push_str(&format!("mid{k}\ndata{k}\n")),
     }
@@ -318,11 +326,14 @@ fn check_test(t: &Test, snaps: &BTreeMap<String, SnapMap>, tolerant: bool) -> Op
         }
     }
     // --- child on entry sees a copy, with the documented differences
-    let mut entries = vec![("E", false)];
-    if t.kind == Kind::Pipe {
-        entries.push(("F", true));
-    }
-    for (label, second) in entries {
+    // (label, standard input is a pipe, standard output is a pipe)
+    let entries: Vec<(&str, bool, bool)> = match t.kind {
+        Kind::Pipe => vec![("E", false, true), ("F", true, false)],
+        Kind::Pipe3 => vec![("E", false, true), ("F", true, true), ("G", true, false)],
+        Kind::Cs => vec![("E", false, true)],
+        _ => vec![("E", false, false)],
+    };
+    for (label, pipe_in, pipe_out) in entries {
         let Some(e) = get(label) else {
             if tolerant {
                 continue;
@@ -355,14 +366,7 @@ fn check_test(t: &Test, snaps: &BTreeMap<String, SnapMap>, tolerant: bool) -> Op
                         || key == "trap:S002"
                         || key == "trap:S003"
                 }
-                Kind::Cs => key == "fd:1",
-                Kind::Pipe => {
-                    if second {
-                        key == "fd:0"
-                    } else {
-                        key == "fd:1"
-                    }
-                }
+                Kind::Cs | Kind::Pipe | Kind::Pipe3 => (pipe_in && key == "fd:0") || (pipe_out && key == "fd:1"),
                 Kind::Paren => false,
             }
         };
